@@ -128,6 +128,40 @@ pub fn run(ctx: &Ctx) -> Outcome {
     let mut rep = run_sharded(ctx, |w, nw, rep| {
         let ls = LangSet::new();
         let mut rng = Rng::derive(ctx.seed, "C15", w as u64);
+        // bounded exhaustive part: every stream of up to 3 (thorough: 4) tokens over the small alphabet of each language
+        // under EVERY assignment of {no hint, unrelated-to-predecessor, not-a-number-part} to its tokens
+        let (n_small, cut) = streams::for_each_small_stream(&ls.lex, if ctx.quick() { 3 } else { 4 }, w, nw, &|| ctx.elapsed() > ctx.budget_s * 0.5, &mut |code, toks| {
+            let d = toks.len() as u32;
+            for mask in 0..3u32.pow(d) {
+                let mut hinted: Vec<crate::api::IdTok> = toks.to_vec();
+                let mut m = mask;
+                for t in hinted.iter_mut() {
+                    match m % 3 {
+                        1 => t.sep = true,
+                        2 => t.nan = true,
+                        _ => {}
+                    }
+                    m /= 3;
+                }
+                let v = check_stream(&ls, code, &hinted);
+                rep.eval(streams::stream_hash(code, &hinted) ^ 0xe4, v.n_f0 > 0 || v.hints > 0);
+                rep.add("numbers_recognised", v.n_f0 as u64);
+                rep.add("hinted_tokens", v.hints as u64);
+                rep.count("exhaustive_hint_assignments");
+                if let Some(msg) = v.failure {
+                    let clause = msg.split(':').next().unwrap_or("").to_string();
+                    rep.violation(
+                        &format!("{}:{}", code, clause),
+                        jobj! {"kind" => "stream", "lang" => code, "tokens" => streams::stream_json(&hinted)},
+                        format!("[{}] {} | stream: {}", code, msg, streams::show_stream(&hinted)),
+                    );
+                }
+            }
+        });
+        rep.add("exhaustive_small_alphabet_streams", n_small);
+        if cut {
+            rep.count("exhaustive_enumeration_cut_by_budget");
+        }
         for i in 0..(n_streams / nw as u64) {
             if i % 128 == 0 && ctx.over_budget() {
                 break;
@@ -166,7 +200,7 @@ pub fn run(ctx: &Ctx) -> Outcome {
     if !ctx.quick() {
         super::legs::fuzz_leg(ctx, &mut rep, 45);
     }
-    let rule = "cases = hinted grammar-noise token streams (6-20% separation hints, 4% not-a-number hints, whitespace tokens, random case, up to 40 words) at thresholds 0, 3, 10, inf: iterator output == batch output then None twice more; 0 tokens pulled before the first request and never more than up to the end of the second number after the returned one (counted with a wrapping iterator); no occurrence spans a separation-hinted token and its predecessor; hinted stream == same stream with a ',' token inserted; no occurrence contains a not-a-number token; non-trivial = stream with a recognised number or a hint";
+    let rule = "cases = every stream of 1..3 (thorough 1..4) tokens over a 16-word alphabet per language under every assignment of the two hints to its tokens (counters exhaustive_*), and hinted grammar-noise token streams (6-20% separation hints, 4% not-a-number hints, whitespace tokens, random case, up to 40 words) at thresholds 0, 3, 10, inf: iterator output == batch output then None twice more; 0 tokens pulled before the first request and never more than up to the end of the second number after the returned one (counted with a wrapping iterator); no occurrence spans a separation-hinted token and its predecessor; hinted stream == same stream with a ',' token inserted; no occurrence contains a not-a-number token; non-trivial = stream with a recognised number or a hint";
     finish(ctx, rep, rule, &["hints are only placed on tokens the scanner does not skip (not on whitespace or lone hyphens)"], vec![])
 }
 
